@@ -51,6 +51,8 @@ type vfC04Step struct {
 	GateH    bool
 	GateP    bool
 	GateR    bool
+	FailH    int // subscribe ops: fail the next history read of the channel (1 plain error, 2 client *Error)
+	FailP    bool // subscribe ops: fail the next AddPresence of (conn, channel)
 	Idx      int
 	AdvMs    int
 	NoSettle bool
@@ -84,6 +86,12 @@ func (s vfC04Step) String() string {
 	}
 	if g != "" {
 		g = " gate=" + g
+	}
+	if s.FailH > 0 {
+		g += fmt.Sprintf(" failHistory=%d", s.FailH)
+	}
+	if s.FailP {
+		g += " failPresence"
 	}
 	switch s.Kind {
 	case vfC04SubCmd:
@@ -171,9 +179,13 @@ func vfC04Gen(rt *rapid.T) vfC04Case {
 			s.Mode = rapid.SampledFrom([]int{0, 0, 0, 1, 1, 1, 1, 1, 2, 3, 3, 4, 5}).Draw(rt, "mode")
 			s.GateH = rapid.IntRange(0, 3).Draw(rt, "gateH") == 0
 			s.GateP = rapid.IntRange(0, 3).Draw(rt, "gateP") == 0
+			s.FailH = rapid.SampledFrom([]int{0, 0, 0, 0, 0, 0, 0, 1, 2}).Draw(rt, "failH")
+			s.FailP = rapid.IntRange(0, 9).Draw(rt, "failP") == 0
 		case vfC04ClientSub, vfC04NodeSub:
 			s.GateH = rapid.IntRange(0, 2).Draw(rt, "gateH") == 0
 			s.GateP = rapid.IntRange(0, 2).Draw(rt, "gateP") == 0
+			s.FailH = rapid.SampledFrom([]int{0, 0, 0, 0, 0, 0, 0, 1, 2}).Draw(rt, "failH")
+			s.FailP = rapid.IntRange(0, 9).Draw(rt, "failP") == 0
 		case vfC04UnsubCmd, vfC04ClientUnsub, vfC04NodeUnsub:
 			s.GateR = rapid.IntRange(0, 2).Draw(rt, "gateR") == 0
 		case vfC04Advance:
@@ -300,13 +312,32 @@ func (r *vfC04Rt) start(conns []int, ch int, isSub bool, mode int, f func(a *vfC
 type vfC04Presence struct {
 	inner PresenceManager
 	w     *vfWorld
+	mu    sync.Mutex
+	fail  map[string]int // "conn:ch" -> number of AddPresence calls to fail
+}
+
+func (p *vfC04Presence) failNext(key string) {
+	p.mu.Lock()
+	p.fail[key]++
+	p.mu.Unlock()
 }
 
 func (p *vfC04Presence) Presence(ch string) (map[string]*ClientInfo, error) { return p.inner.Presence(ch) }
 func (p *vfC04Presence) PresenceStats(ch string) (PresenceStats, error)      { return p.inner.PresenceStats(ch) }
 func (p *vfC04Presence) AddPresence(ch string, clientID string, info *ClientInfo) error {
-	if c := p.w.connByID(clientID); c != nil && !c.Client.closing.Load() {
-		p.w.Gates.Pass("p+:" + c.Name + ":" + ch)
+	if c := p.w.connByID(clientID); c != nil {
+		if !c.Client.closing.Load() {
+			p.w.Gates.Pass("p+:" + c.Name + ":" + ch)
+		}
+		p.mu.Lock()
+		f := p.fail[c.Name+":"+ch] > 0
+		if f {
+			p.fail[c.Name+":"+ch]--
+		}
+		p.mu.Unlock()
+		if f {
+			return fmt.Errorf("vf: injected presence failure")
+		}
 	}
 	return p.inner.AddPresence(ch, clientID, info)
 }
@@ -325,7 +356,10 @@ func vfC04Run(t *testing.T, cs vfC04Case, out *vfC04Out, isKnown func(string) bo
 			return "infra: " + err.Error()
 		}
 		defer w.Close()
-		w.node.SetPresenceManager(&vfC04Presence{inner: w.node.presenceManager, w: w})
+		pm := &vfC04Presence{inner: w.node.presenceManager, w: w, fail: map[string]int{}}
+		w.node.SetPresenceManager(pm)
+		var hmu sync.Mutex
+		failH := map[string]int{}
 
 		chName := func(ch int) string { return fmt.Sprintf("c%d", ch) }
 		userName := func(u int) string { return fmt.Sprintf("u%d", u) }
@@ -347,8 +381,24 @@ func vfC04Run(t *testing.T, cs vfC04Case, out *vfC04Out, isKnown func(string) bo
 		}
 
 		w.broker.Hook = func(op, phase, hch string) error {
-			if op == "history" && phase == "after" {
+			if op != "history" {
+				return nil
+			}
+			if phase == "after" {
 				w.Gates.Pass("h:" + hch)
+				return nil
+			}
+			hmu.Lock()
+			k := failH[hch]
+			if k > 0 {
+				failH[hch] = 0
+			}
+			hmu.Unlock()
+			switch k {
+			case 1:
+				return fmt.Errorf("vf: injected history failure")
+			case 2:
+				return ErrorTooManyRequests
 			}
 			return nil
 		}
@@ -505,6 +555,16 @@ func vfC04Run(t *testing.T, cs vfC04Case, out *vfC04Out, isKnown func(string) bo
 			}
 			if s.GateP && cs.ChPres[ch] {
 				w.Gates.Arm("p+:"+conns[c].Name+":"+chName(ch), 1)
+			}
+			if s.FailH > 0 && cs.ChPos[ch] {
+				hmu.Lock()
+				failH[chName(ch)] = s.FailH
+				hmu.Unlock()
+				out.label("history_failure_armed")
+			}
+			if s.FailP && cs.ChPres[ch] {
+				pm.failNext(conns[c].Name + ":" + chName(ch))
+				out.label("presence_failure_armed")
 			}
 		}
 		armUnsub := func(c, ch int, s vfC04Step) {
